@@ -11,7 +11,8 @@ from harness.lib import common
 PROP = 'C17'
 PROP_FILE = 'Props/C17.v'
 THEOREMS = ['C17_one_line', 'C17_bad_argument_refused', 'C17_reply_segmentation_independent',
-            'C17_reply_matches_reference', 'C17_complete_only_after_226']
+            'C17_reply_matches_reference', 'C17_complete_only_after_226', 'C17_interleaving_independent',
+            'C17_command_sequence', 'C17_restart_offset']
 TRUSTED = [
     'hand-written model Model/Ftp.v + Model/FtpConn.v of wpull/protocol/ftp/{request,stream,command,client,util}.py, '
     'tied by the vm_compute correspondence of this run',
@@ -22,9 +23,16 @@ TRUSTED = [
     "bytes<->str: reply text is compared as bytes (decode/encode with surrogateescape is the identity, PEP 383); "
     "str.encode('utf-8','surrogateescape') is modelled concretely (utf8_cp)",
     'util.parse_address is modelled on ASCII text (Unicode digits / whitespace in a PASV reply are outside the model; no theorem depends on the address)',
+    'interleaving of control and data arrivals: modelled as an arrival schedule consumed at the primitive steps of the session (after each '
+    'command write, before each read_reply, at the opening of the data connection, before each read(4096)); arrivals DURING a primitive on the '
+    'connection it does not read are identified with arrivals right after it (the primitive never inspects the other connection); the scripted '
+    'transport of the correspondence feeds both StreamReaders at exactly those points',
+    'Session.download_listing parsing the listing text AFTER the transfer completed is outside the model (a listing that does not parse is a '
+    'ProtocolError of that URL, C09); Session state checks (RuntimeError when misused), timeouts and the connection pool are outside the model',
 ]
 ASSUMPTIONS = [
-    'a connection delivers its bytes in order, in segments of at least one byte, then EOF (Model/FtpConn.v deliver)',
+    'a connection delivers its bytes in order, in segments of at least one byte, then EOF (Model/FtpConn.v deliver); bytes may also reach a '
+    "StreamReader's buffer while the client is suspended elsewhere (push / arrive)",
     'the server byte streams are fixed in advance (the client is deterministic in what it reads, so an adaptive server adds nothing)',
 ]
 
@@ -228,7 +236,7 @@ def render_script(r, codes, plain):
     return out
 
 
-def gen_visit(r, url, *, listing=None, plain=False, mutate=None):
+def gen_visit(r, url, *, listing=None, plain=False, mutate=None, twin=True):
     listing = r.randrange(4) == 0 if listing is None else listing
     if listing and not url.endswith('/'):
         pass
@@ -273,7 +281,11 @@ def gen_visit(r, url, *, listing=None, plain=False, mutate=None):
             'listing': listing, 'fresh': fresh, 'cached': cached, 'limit': LIMIT,
             'ctrl': ctrl.hex(), 'ctrl_segs': r.choice(_seglists(r, len(ctrl), 3)),
             'data': data.hex(), 'data_segs': r.choice(_seglists(r, len(data), 3)) if data else [],
-            'net': gen_net(r, len(ctrl), len(data))}
+            'net': gen_net(r, len(ctrl), len(data)),
+            # the same visit under another segmentation and arrival schedule (implementation only)
+            'twin': {'ctrl_segs': r.choice(_seglists(r, len(ctrl), 3)),
+                     'data_segs': r.choice(_seglists(r, len(data), 3)) if data else [],
+                     'net': gen_net(r, len(ctrl), len(data))} if twin else None}
 
 
 def gen_net(r, nc, nd):
@@ -301,7 +313,7 @@ def gen_visit_cases(r, thorough):
                   'ftp://h/a%sb/']
     for tpl in spots:
         for b in range(256):
-            c = gen_visit(r, tpl % _pct([b]), plain=True, mutate=False)
+            c = gen_visit(r, tpl % _pct([b]), plain=True, mutate=False, twin=b % 3 == 0 or b in HOSTILE)
             c['tag'] = 'sweep'
             cases.append(c)
     # pairs / sequences of hostile bytes, raw characters, injection payloads
@@ -484,6 +496,64 @@ def coq_checks(case, res):
 # --------------------------------------------------------------------------
 # the property itself, on the implementation's answers
 # --------------------------------------------------------------------------
+def ref_reads(stream, nreads):
+    """Reference reply reader (independent of wpull and of the Coq model): RFC 959 replies - "ddd SP text" or
+    "ddd-text", any lines, "ddd SP text" with the same ddd - over CRLF-terminated lines.  Returns the expected
+    results of up to nreads reads, as far as the stream is RFC-shaped: ('ok', code, text) per complete reply,
+    ('err',) when the stream ends inside a reply."""
+    import re
+    out = []
+    pos = 0
+    for _ in range(nreads):
+        lines = []
+        p = pos
+        while True:
+            j = stream.find(b'\r\n', p)
+            if j < 0:
+                rest = stream[p:]
+                if b'\r' in rest or b'\n' in rest:
+                    return out
+                out.append(('err',))
+                return out
+            line = stream[p:j]
+            if b'\r' in line or b'\n' in line:
+                return out
+            p = j + 2
+            lines.append(line)
+            if re.match(rb'[0-9]{3} ', line):
+                if len(lines) > 1 and not lines[0].startswith(line[:3] + b'-'):
+                    return out
+                strip = [re.sub(rb'^[0-9]{3}', b'', x, count=1) for x in lines]
+                strip = [x[1:] if x[:1] in (b' ', b'-') else x for x in strip]
+                out.append(('ok', int(line[:3]), b'\r\n'.join(strip)))
+                pos = p
+                break
+    return out
+
+
+def _plan(case, res, nlogin, fallback):
+    """the session plan (Model/Ftp.v session_plan) recomputed from the case: list of wire lines, None where the
+    argument cannot be encoded"""
+    d = res['decoded']
+    user = ''.join(map(chr, d['user'])) or case.get('req_user') or 'anonymous'
+    password = ''.join(map(chr, d['pass'])) or case.get('req_pass') or '-wpull@'
+    path = ''.join(map(chr, d['path']))
+    cmds = [('USER', user), ('PASS', password)][:nlogin]
+    if case['listing']:
+        cmds += [('TYPE', 'I'), ('PASV', ''), ('MLSD', path)] + ([('LIST', path)] if fallback else [])
+    else:
+        cmds += [('SIZE', path)] + ([('REST', str(case['restart']))] if case.get('restart') else []) + \
+                [('TYPE', 'I'), ('PASV', ''), ('RETR', path)]
+    out = []
+    for name, arg in cmds:
+        try:
+            out.append((name + ' ' + arg + '\r\n').encode('utf-8', 'surrogateescape').hex())
+        except UnicodeEncodeError:
+            out.append(None)
+    hit = (not case['fresh']) and case.get('cached') is not None and list(case['cached']) == [user, password]
+    return out, hit
+
+
 def property_on_impl(case, res):
     """returns None or a short reason"""
     k = case['kind']
@@ -492,6 +562,13 @@ def property_on_impl(case, res):
         for run in res['runs'][1:]:
             if run != first:
                 return 'reply-depends-on-segmentation'
+        stream = bytes.fromhex(case['stream'])
+        if case['limit'] == LIMIT and len(stream) < LIMIT:
+            for exp, got in zip(ref_reads(stream, case['nreads']), first['reads']):
+                if exp[0] == 'ok' and got.get('ok') != [exp[1], exp[2].hex()]:
+                    return 'reply-differs-from-reference'
+                if exp[0] == 'err' and 'ok' in got:
+                    return 'reply-accepted-from-truncated-stream'
         return None
     if k == 'cmd':
         if 'ok' in res:
@@ -505,7 +582,8 @@ def property_on_impl(case, res):
     for e in ev:
         if e.startswith('W:') and not _one_line(bytes.fromhex(e[2:])):
             return 'command-not-one-line'
-    if 'ok' in res['outcome']:
+    complete = 'ok' in res['outcome']
+    if complete:
         if 'E' not in ev:
             return 'complete-without-data-eof'
         i = ev.index('E')
@@ -518,6 +596,37 @@ def property_on_impl(case, res):
         got = ''.join(e[2:] for e in ev if e.startswith('D:'))
         if got != case['data'] or res.get('file') != case['data']:
             return 'complete-with-partial-data'
+    # the command sequence follows the session plan
+    writes = [e[2:] for e in ev if e.startswith('W:')]
+    fits = False
+    for nlogin in (0, 1, 2):
+        for fallback in ((False, True) if case['listing'] else (False,)):
+            plan, hit = _plan(case, res, nlogin, fallback)
+            if (nlogin == 0) != hit:
+                continue
+            if writes == plan[:len(writes)] and (not complete or len(writes) == len(plan)):
+                fits = True
+    if not fits:
+        return 'command-sequence-not-the-session-plan'
+    # restart offset
+    marks = [i for i, e in enumerate(ev) if e.startswith('RS:')]
+    if len(marks) > 1:
+        return 'restart-accepted-twice'
+    for i in marks:
+        n = int(ev[i][3:])
+        if case['listing'] or not case.get('restart') or n != case['restart'] or i < 2 or ev[i - 1] != 'R:350' or \
+                ev[i - 2] != 'W:' + (b'REST %d\r\n' % n).hex():
+            return 'restart-offset-mismatch'
+    # the twin run (same streams, other segmentation / arrival schedule) must look the same
+    tw = res.get('twin')
+    if tw is not None:
+        def view(x):
+            o = x['outcome']
+            return ([e for e in x['events'] if not e.startswith('D:')],
+                    ''.join(e[2:] for e in x['events'] if e.startswith('D:')),
+                    o.get('ok'), o.get('err'), x.get('file'))
+        if view(tw) != view(res):
+            return 'visit-depends-on-interleaving'
     return None
 
 
@@ -576,12 +685,21 @@ def _diff_seg(case, res):
 
 
 def _impl(cases, shard=120):
-    chunks = [cases[i:i + shard] for i in range(0, len(cases), shard)]
+    """run the cases on the implementation; a visit case with a 'twin' is run a second time under the twin's
+    segmentation / arrival schedule and that result is attached as res['twin']"""
+    twins = [(i, dict({k: v for k, v in c.items() if k != 'twin'}, **c['twin']))
+             for i, c in enumerate(cases) if c.get('kind') == 'visit' and c.get('twin')]
+    allc = list(cases) + [t for _, t in twins]
+    chunks = [allc[i:i + shard] for i in range(0, len(allc), shard)]
     outs = common.run_impl_sharded('c17_impl.py', [{'cases': c} for c in chunks], par=6)
     res = []
     for o in outs:
         res += o['results']
-    return res
+    main = res[:len(cases)]
+    for (i, _), tr in zip(twins, res[len(cases):]):
+        if 'skipped' not in main[i]:
+            main[i]['twin'] = tr
+    return main
 
 
 def correspondence(ctx):
@@ -690,7 +808,9 @@ def correspondence(ctx):
 
 
 def _short(res):
-    s = dict(res)
+    import copy
+    s = copy.deepcopy(res)      # never touch the results: they are compared afterwards
+    s.pop('twin', None)
     if 'runs' in s:
         s = {'runs': s['runs'][:3]}
         for run in s['runs']:
@@ -729,15 +849,25 @@ def replay(ctx, data):
     return property_on_impl(case, res) is not None
 
 
-LEVEL_TEXT = ('Coq theorems: C17_one_line (every control-connection write of a visit is NAME SP arg CRLF without CR/LF/NUL, for every decoded '
-              'user/password/path, every server byte stream and every segmentation), C17_bad_argument_refused, '
-              'C17_reply_segmentation_independent (read_reply is a function of the byte stream for every oracle and buffer state; fuel never runs out), '
-              'C17_reply_matches_reference (RFC 959-shaped replies give the reference code/text/rest), C17_complete_only_after_226 (a complete '
-              'transfer implies data read to EOF, all bytes delivered, then a 226 read). Closed under the global context. The model is hand-written '
-              'and tied to the code on every run by vm_compute evaluation against the real Session/Commander/ControlStream/Reply/Command over a '
-              'scripted transport.')
+LEVEL_TEXT = ('Coq theorems, all for every decoded user/password/path (every code point in every position), every server byte stream on both '
+              'connections, every segmentation oracle of each, every buffer state and every arrival schedule (interleaving of control and data '
+              'arrivals with the client steps): C17_one_line (every control-connection write of a visit is NAME SP arg CRLF without CR/LF/NUL), '
+              'C17_bad_argument_refused (CR/LF/NUL => ProtocolError before a byte is written; such a path never completes), '
+              'C17_command_sequence (the writes are, in order, a prefix of the session plan USER PASS [SIZE [REST n]] TYPE PASV RETR | MLSD [LIST] '
+              'with exactly the decoded values utf-8 encoded; the whole plan when the transfer is reported complete; no login iff the cached login '
+              'matches), C17_restart_offset (restart accepted only as REST <decimal n> / 350, n the requested non-zero offset, digits denote n), '
+              'C17_reply_segmentation_independent (read_reply is a function of the byte stream; fuel never runs out), '
+              'C17_reply_matches_reference (RFC 959-shaped replies give the reference code/text/rest), C17_complete_only_after_226 (complete => '
+              'all data bytes delivered, data EOF, THEN a 226 parsed from the control bytes left unread by the control phase - wherever they were '
+              'buffered meanwhile), C17_interleaving_independent (outcome, control event sequence, data bytes and unread bytes of a visit depend '
+              'only on the two byte streams). Closed under the global context. The model is hand-written and tied to the code on every run by '
+              'vm_compute evaluation against the real Session/Commander/ControlStream/DataStream/Reply/Command/Connection/StreamReader over a scripted '
+              'transport that reproduces segmentation and arrival schedule exactly.')
 LEVEL_NOTE = ('Trusted: Coq kernel + vm_compute; hand-written model and harness; StreamReader semantics modelled concretely; URL percent-decoding '
-              'is outside the model (theorems cover every decoded string); reply text compared as bytes; parse_address modelled on ASCII. '
+              'is outside the model (theorems cover every decoded string; the correspondence sweeps every byte value through the real decoder); '
+              'reply text compared as bytes; parse_address modelled on ASCII; arrival granularity as described in the trusted list. '
               'Proved on the tree with the fixes for F22 (command injection), F23 (AssertionError in Reply.parse) and F25 (PASV numbers > 255).')
-TECHNIQUE = ('Coq: segmentation oracle + fuel induction for readline/read_reply/read_file; state-error-trace monad with a compositional '
-             'trace invariant for the session; vm_compute correspondence against the real asyncio code over a scripted transport')
+TECHNIQUE = ('Coq: segmentation oracle + arrival schedule, fuel induction for readline/read_reply/read_file; state-error-trace monad with '
+             'compositional invariants (trace predicate, stream-determinism, finite command languages with prefix closure) for the session; '
+             'vm_compute correspondence against the real asyncio code over a scripted transport; independent Python reference predicates on the '
+             "implementation's answers (RFC 959 reply reader, session plan, restart triple, twin runs under another interleaving)")
